@@ -479,6 +479,25 @@ func TestC13(t *testing.T) {
 		behBatch(t, c, c13NonTrivial, c13Check, nil)
 		behCompileErrIsViolation = false
 	}
+	// (2d) hand-built: getter types of the container's own package whose names are the identifiers the getter templates
+	// use themselves (parameter ctx, results and locals): the type text must keep denoting the type
+	if ev.Mine(3) {
+		behCompileErrIsViolation = true
+		var c behCase
+		for v := 0; v < 2; v++ {
+			conf := cfg.Config{Meta: cfg.Meta{Pkg: sp("app")}}
+			for i, tn := range []string{"*ctx", `*".".ctx`, "*r", "*err", `*".".result`, `*".".r`} {
+				conf.Services = append(conf.Services, cfg.Service{Name: fmt.Sprintf("t%d", i), Ctor: sp([]string{"NewObj", `".".NewObj`}[i%2]), Getter: sp(fmt.Sprintf("GetT%d", i)), Type: sp(tn), Must: bp(i%3 != 0)})
+			}
+			if v == 1 {
+				conf.Meta.DefaultMust = bp(true)
+				conf.Services[0].Scope, conf.Services[1].Scope = sp("contextual"), sp("non_shared")
+			}
+			c.Members = append(c.Members, behMember{Files: []cfg.Config{conf}, Script: c13Script(conf), LocalExtra: ref.LocalAliasSource, Labels: []string{"hand-built:getter-types-named-like-template-identifiers"}})
+		}
+		behBatch(t, c, c13NonTrivial, c13Check, nil)
+		behCompileErrIsViolation = false
+	}
 	// (3) documented default names: package main / Gontainer / NewGontainer (linked one by one)
 	for i := 0; i < pick(1, 4); i++ {
 		if !ev.Mine(i) {
